@@ -12,12 +12,12 @@
 From Coq Require Import List NArith ZArith Bool Permutation Sorted.
 Import ListNotations.
 Require Import Celma.Common.Res Celma.ArgH.Key Celma.ArgH.Handler Celma.ArgH.Cont Celma.ArgH.ContProofs
-  Celma.ArgH.ContProofs2.
+  Celma.ArgH.ContProofs2 Celma.ArgH.ContProofs3.
 
 (** The destination after any list of uses is the fold over the concatenated
     elements: earlier content discarded once if so configured, then every
     element in order (counted, checked, formatted, converted, tested for
-    duplicates, placed), sorted at the end if so configured.  All 18 kinds,
+    duplicates, placed), sorted at the end if so configured.  All 21 kinds,
     all option combinations.  [card_cut_ok]: a use without any element is
     invisible only when there is no cardinality (the default of containers). *)
 Theorem C06_cont_fold :
@@ -322,14 +322,17 @@ Theorem C06_fmt_pos_range_rule :
 Proof. exact fmt_pos_nth. Qed.
 Print Assumptions C06_fmt_pos_range_rule.
 
-(** map<string,int>: keys stay strictly ascending; an entry that was there
-    before keeps its value; otherwise the FIRST element with that key decides
-    (std::map::insert does not overwrite; with unique data the later elements
-    are dropped before their value is converted); otherwise the key is absent. *)
+(** map<string,int> and unordered_map<string,int> ([map_kind]; the latter as
+    printed: ascending by key): keys stay strictly ascending; an entry that was
+    there before keeps its value; otherwise the FIRST element with that key
+    decides (insert() of these two containers does not overwrite; with unique
+    data the later elements are dropped before their value is converted);
+    otherwise the key is absent. *)
 Theorem C06_cont_map_content :
-  forall p o st u rest st' l0,
+  forall p k o st u rest st' l0,
+    map_kind k ->
     c_val st = CMap l0 -> keys_sorted (start_map st l0) ->
-    run_uses_gen (step_gen p KMap o) o st (u :: rest) = Ok st' ->
+    run_uses_gen (step_gen p k o) o st (u :: rest) = Ok st' ->
     exists l, c_val st' = CMap l /\ keys_sorted l /\
       forall key, map_entry_spec (start_map st l0) (all_tokens o (u :: rest)) key (map_get key l).
 Proof. exact cont_map_content. Qed.
@@ -338,19 +341,23 @@ Print Assumptions C06_cont_map_content.
 (** ... with "duplicates are errors" the uses are accepted only if all keys are
     new and pairwise different ... *)
 Theorem C06_cont_map_unique_refuse :
-  forall p o st u rest st' l0,
+  forall p k o st u rest st' l0,
+    map_kind k ->
     o_uniq o = true -> o_dup_err o = true ->
     c_val st = CMap l0 -> keys_sorted (start_map st l0) ->
-    run_uses_gen (step_gen p KMap o) o st (u :: rest) = Ok st' ->
+    run_uses_gen (step_gen p k o) o st (u :: rest) = Ok st' ->
     NoDup (map fst (start_map st l0) ++ map tok_key (all_tokens o (u :: rest))).
 Proof. exact cont_map_unique_refuse. Qed.
 Print Assumptions C06_cont_map_unique_refuse.
 
-(** ... and every accepted element is a pair "key,value" with both parts non-empty. *)
+(** ... and on all four key-value destinations (map, multimap, unordered_map,
+    unordered_multimap) every accepted element is a pair "key,value" with both
+    parts non-empty. *)
 Theorem C06_cont_map_pair_format :
-  forall p o st uses st' l0,
+  forall p k o st uses st' l0,
+    kv_kind k = true ->
     c_val st = CMap l0 ->
-    run_uses_gen (step_gen p KMap o) o st uses = Ok st' ->
+    run_uses_gen (step_gen p k o) o st uses = Ok st' ->
     Forall (fun t => tok_key t <> [] /\ tok_val t <> []) (all_tokens o uses).
 Proof. exact cont_map_pair_format. Qed.
 Print Assumptions C06_cont_map_pair_format.
@@ -364,6 +371,100 @@ Corollary C06_cont_map_cut_independent :
 Proof. exact (cont_cut_independent KMap). Qed.
 Print Assumptions C06_cont_map_cut_independent.
 
+(** Unique data on ALL four key-value destinations, dropping or refusing, any
+    earlier content [l0] (a multimap may hold several entries under one key),
+    any list of uses: for every key the destination holds ([entries key l] =
+    all pairs with that key, in container order) what [uq_entry_spec] says -
+    a key that was stored before the first element keeps exactly its earlier
+    entries and none of the pairs given for it is stored; any other key given
+    holds exactly ONE pair, the first one given for it (its value converted);
+    a key not given is absent.  In particular this does not depend on what
+    insert() of the container would do with a key that is stored already
+    (std::multimap / std::unordered_multimap would add the pair). *)
+Theorem C06_cont_kv_unique :
+  forall p k o st u rest st' l0,
+    kv_kind k = true -> o_uniq o = true ->
+    c_val st = CMap l0 ->
+    run_uses_gen (step_gen p k o) o st (u :: rest) = Ok st' ->
+    exists l, c_val st' = CMap l /\
+      forall key, uq_entry_spec (start_map st l0) (all_tokens o (u :: rest)) key (entries key l).
+Proof. exact cont_kv_unique. Qed.
+Print Assumptions C06_cont_kv_unique.
+
+(** ... hence never two of the pairs given under one key, and no pair given
+    under a key of the earlier content *)
+Corollary C06_cont_kv_unique_one_per_key :
+  forall p k o st u rest st' l0,
+    kv_kind k = true -> o_uniq o = true ->
+    c_val st = CMap l0 ->
+    run_uses_gen (step_gen p k o) o st (u :: rest) = Ok st' ->
+    exists l, c_val st' = CMap l /\
+      forall key, (entries key (start_map st l0) <> [] -> entries key l = entries key (start_map st l0)) /\
+                  (entries key (start_map st l0) = [] -> length (entries key l) <= 1).
+Proof. exact cont_kv_unique_one_per_key. Qed.
+Print Assumptions C06_cont_kv_unique_one_per_key.
+
+(** "duplicates are errors" on all four: accepted only if the keys given are
+    pairwise different and none of them was stored before *)
+Theorem C06_cont_kv_unique_refuse :
+  forall p k o st u rest st' l0,
+    kv_kind k = true -> o_uniq o = true -> o_dup_err o = true ->
+    c_val st = CMap l0 ->
+    run_uses_gen (step_gen p k o) o st (u :: rest) = Ok st' ->
+    NoDup (map tok_key (all_tokens o (u :: rest))) /\
+    Forall (fun t => entries (tok_key t) (start_map st l0) = []) (all_tokens o (u :: rest)).
+Proof. exact cont_kv_unique_refuse. Qed.
+Print Assumptions C06_cont_kv_unique_refuse.
+
+(** multimap<string,int> without unique data: every pair given is stored ([ps]
+    = the pairs the elements denote, values converted); keys ascending; under
+    every key first the entries that were there before, then the pairs given
+    for that key in the order given *)
+Theorem C06_cont_multimap_content :
+  forall p o st u rest st' l0,
+    o_uniq o = false ->
+    c_val st = CMap l0 -> ksorted (start_map st l0) ->
+    run_uses_gen (step_gen p KMMap o) o st (u :: rest) = Ok st' ->
+    exists l ps, c_val st' = CMap l /\ Forall2 tok_pair (all_tokens o (u :: rest)) ps /\
+      ksorted l /\ Permutation l (start_map st l0 ++ ps) /\
+      forall key, entries key l = entries key (start_map st l0) ++ entries key ps.
+Proof. exact cont_multimap_content. Qed.
+Print Assumptions C06_cont_multimap_content.
+
+(** unordered_multimap<string,int> without unique data: exactly the earlier
+    entries and all pairs given (printed ascending by key and value) *)
+Theorem C06_cont_unordered_multimap_content :
+  forall p o st u rest st' l0,
+    o_uniq o = false ->
+    c_val st = CMap l0 -> psorted (start_map st l0) ->
+    run_uses_gen (step_gen p KUMMap o) o st (u :: rest) = Ok st' ->
+    exists l ps, c_val st' = CMap l /\ Forall2 tok_pair (all_tokens o (u :: rest)) ps /\
+      psorted l /\ Permutation l (start_map st l0 ++ ps).
+Proof. exact cont_unordered_multimap_content. Qed.
+Print Assumptions C06_cont_unordered_multimap_content.
+
+(** clear-before-assign on a multimap: whatever it held, after the uses it
+    holds the pairs given and nothing else (the earlier content is discarded
+    once: what the first use stored is kept by the later uses) *)
+Corollary C06_cont_multimap_clear :
+  forall p o before u rest st',
+    o_uniq o = false -> o_clear o = true ->
+    run_uses_gen (step_gen p KMMap o) o (init_state o (CMap before)) (u :: rest) = Ok st' ->
+    exists l ps, c_val st' = CMap l /\ Forall2 tok_pair (all_tokens o (u :: rest)) ps /\
+      ksorted l /\ Permutation l ps /\ forall key, entries key l = entries key ps.
+Proof. exact cont_multimap_clear. Qed.
+Print Assumptions C06_cont_multimap_clear.
+
+(** the cut into uses / lists / free values does not matter for the multi-maps either *)
+Corollary C06_cont_multimap_cut_independent :
+  forall k o st uses1 uses2,
+    k = KMMap \/ k = KUMap \/ k = KUMMap ->
+    setup_ok k o = true -> card_cut_ok o uses1 -> card_cut_ok o uses2 ->
+    all_tokens o uses1 = all_tokens o uses2 -> is_nil uses1 = is_nil uses2 ->
+    run_uses k o st uses1 = run_uses k o st uses2.
+Proof. intros k o st uses1 uses2 _. exact (cont_cut_independent k o st uses1 uses2). Qed.
+Print Assumptions C06_cont_multimap_cut_independent.
+
 (** The accept / refuse table of the definition-time setters, as the model has
     it (tied to setSortData / setUniqueData / setClearBeforeAssign / addFormat /
     addFormatPos / setListSep by the correspondence check: every refused
@@ -375,7 +476,7 @@ Theorem C06_setup_table :
     (o_uniq o = true -> has_iter k = true) /\
     (o_clear o = true -> clearable k = true) /\
     ftab_ok k (o_ftab o) = true /\
-    (k = KMap -> o_sep o <> COMMA).
+    (kv_kind k = true -> o_sep o <> COMMA).
 Proof. exact setup_ok_table. Qed.
 Print Assumptions C06_setup_table.
 
@@ -423,7 +524,7 @@ Print Assumptions C06_sortable_table.
 
 Theorem C06_has_iter_table :
   forall k, has_iter k = true <->
-    In k [KVec; KDeque; KList; KFwd; KSet; KMSet; KUSet; KUMSet; KVecStr; KMap] \/
+    In k [KVec; KDeque; KList; KFwd; KSet; KMSet; KUSet; KUMSet; KVecStr; KMap; KMMap; KUMap; KUMMap] \/
     exists n, k = KArr n \/ k = KStdArr n.
 Proof. exact has_iter_table. Qed.
 Print Assumptions C06_has_iter_table.
@@ -511,6 +612,36 @@ Example C06_nonvacuous_map :
                             [[98; 44; 50; 59; 97; 44; 49; 59; 98; 44; 51]%N] with
                     | Ok s => Some s | _ => None end) = Some (CMap [([97%N], 7%Z); ([98%N], 2%Z)]).
 Proof. vm_compute; reflexivity. Qed.
+
+(** "b,2;a,1;b,3;a,4" on destinations holding a:7 (multimap: a:7 and a:8):
+    multimap without unique data keeps every pair behind the earlier ones of its key;
+    with unique data (drop) the key a is left alone and b gets its first pair only -
+    on the multimap and on the unordered multimap, where insert() alone would add;
+    "duplicates are errors" refuses; the unordered map behaves like the map *)
+Definition o_kv (uq de cl : bool) : copts :=
+  {| o_sep := 59; o_clear := cl; o_sort := false; o_uniq := uq; o_dup_err := de; o_multi := false;
+     o_checks := []; o_ftab := []; o_card := CardNone |}.
+Definition w_kv : list str := [[98; 44; 50; 59; 97; 44; 49; 59; 98; 44; 51; 59; 97; 44; 52]%N].
+Definition kv_a78 : list (str * Z) := [([97%N], 7%Z); ([97%N], 8%Z)].
+Example C06_nonvacuous_multimap :
+  let r k o c := option_map c_val (match run_uses k o (init_state o (CMap c)) w_kv with
+                                   | Ok s => Some s | _ => None end) in
+  setup_ok KMMap (o_kv true false false) = true /\ ksorted kv_a78 /\ psorted kv_a78 /\
+  r KMMap (o_kv false false false) kv_a78
+    = Some (CMap [([97%N], 7%Z); ([97%N], 8%Z); ([97%N], 1%Z); ([97%N], 4%Z); ([98%N], 2%Z); ([98%N], 3%Z)]) /\
+  r KMMap (o_kv true false false) kv_a78 = Some (CMap [([97%N], 7%Z); ([97%N], 8%Z); ([98%N], 2%Z)]) /\
+  r KUMMap (o_kv true false false) kv_a78 = Some (CMap [([97%N], 7%Z); ([97%N], 8%Z); ([98%N], 2%Z)]) /\
+  r KUMMap (o_kv false false false) kv_a78
+    = Some (CMap [([97%N], 1%Z); ([97%N], 4%Z); ([97%N], 7%Z); ([97%N], 8%Z); ([98%N], 2%Z); ([98%N], 3%Z)]) /\
+  r KMMap (o_kv true true false) kv_a78 = None /\
+  r KMMap (o_kv false false true) kv_a78
+    = Some (CMap [([97%N], 1%Z); ([97%N], 4%Z); ([98%N], 2%Z); ([98%N], 3%Z)]) /\
+  r KUMap (o_kv false false false) [([97%N], 7%Z)] = Some (CMap [([97%N], 7%Z); ([98%N], 2%Z)]) /\
+  entries [97%N] kv_a78 = kv_a78 /\ first_tok [98%N] (all_tokens (o_kv true false false) w_kv) = Some [98; 44; 50]%N.
+Proof.
+  cbv zeta. repeat split; try (vm_compute; reflexivity);
+    repeat constructor.
+Qed.
 
 (** vector<string>, format "upper" + unique: "ab,AB,c" stores AB and C *)
 Example C06_nonvacuous_strs :
